@@ -742,6 +742,12 @@ pub fn c20(ctx: &GCtx) -> i32 {
                 ensure!(got == want, &format!("default-differs:{:?}", pk), "{} {:?}: T::default() differs from the IDL defaults\n expected {:?}\n got      {:?}", mt.rust_name, pk, want, got);
                 // decode(empty struct) == T::default() whenever it succeeds
                 let empty = vcore::refthrift::encode(pk.ref_proto(), &TVal::Struct(vec![]));
+                if unit.ends_with("_k") && ctx.findings.is_open("C13", "arg-type-tail-swallow") && doc.triggers_tail_swallow(mt, &TVal::Struct(vec![])) {
+                    // keep_unknown_fields build of an argument type whose known fields are all
+                    // covered: its decoder takes 'remaining - 2' bytes (C13 / C09 finding)
+                    rec.borrow_mut().exclude("arg-type-tail-swallow (known finding of C13): decode of the empty struct not compared");
+                    return Ok(());
+                }
                 match catch(|| dec_default(pk, &empty)) {
                     Err(p) => return Err(Fail::new(&format!("default-panic:{:?}", pk), format!("{} {:?}: decoding an empty struct panicked: {}", mt.rust_name, pk, p))),
                     Ok(Some(false)) => return Err(Fail::new(&format!("empty-decode-differs:{:?}", pk), format!("{} {:?}: decode(empty struct) succeeds but differs from T::default() (expected {:?})", mt.rust_name, pk, want))),
